@@ -375,7 +375,7 @@ def _run_layer(ctx, case, st):
     cmax = bool(mono == "increasing" and rng.rand() < .4)
     cyc = bool(mono == "none" and rng.rand() < .3)
     missing = str(rng.choice(["no", "fixed", "derived", "derived"]))
-    miv = -1.0 if missing != "no" else None
+    miv = (0.0 if rng.rand() < .3 else -1.0) if missing != "no" else None
     mov = 0.25 if missing == "fixed" else None
     out_size = nk - cmin - cmax - cyc + (missing == "derived")
     # documented forms of the per-example keypoint parameters: per unit (B, units, P), or shared by all units as
